@@ -102,10 +102,97 @@ UNIT = {
           })''')]},
     ] + [simple_part(t[0], t[2]) for t in TYPES] + [coll_part(t[1], t[2]) for t in TYPES] + [var_part(t[3], t[2]) for t in TYPES],
 }
+
+COMP_INV = [('components', 'component_evaluators@.len() == old_len'),]
+def component_part():
+    return {'kind': 'closure', 'src': ID, 'path': 'fn build_component_type_evaluator', 'key': 'itemdef::component', 'name': 'component',
+            'closure_header': r'Ok\(Box::new\(move \|value: &Value, evaluators: &ItemDefinitionEvaluator\| \{',
+            'signature': 'pub fn component(value: &Value, evaluators: &ItemDefinitionEvaluator, component_evaluators: &Vec<(Name, ItemDefinitionEvaluatorFn)>, av_evaluator: Option<Evaluator>) -> Value',
+            'props': P, 'auto_props': A, 'loops': 1, 'ret': 'r', 'body_prefix': PRE,
+            'rewrites': [R3, ('RX', 'R11', r'FeelContext::default\(\)', 'feel_context_default()', 1),
+                         ('RX', 'R2v', r'for \(component_name, component_evaluator\) in &component_evaluators \{', 'for (component_name, component_evaluator) in component_evaluators.iter() {', 1),
+                         ('RX', 'R8e', r'component_evaluator\(component_value, evaluators\)', 'component_evaluator.call(component_value, evaluators)', 1)],
+            'ensures': [('each_component_checked_by_its_own_definition', 'is_comp_value(*value, component_evaluators@) ==> exists |out: Value| #[trigger] comp_result(*value, component_evaluators@, *evaluators, out) && checked(out, av_evaluator, r)'),
+                        ('not_a_context_or_component_missing_becomes_null', '!is_comp_value(*value, component_evaluators@) ==> r is Null')],
+            'loop_specs': {0: {'iter_name': 'it', 'invariant': [
+                ('ctx', '*value is Context, value->Context_0 == *ctx'),
+                ('seq', 'it.seq() =~= component_evaluators@.map_values(|c: (Name, ItemDefinitionEvaluatorFn)| &c)'),
+                ('present_so_far', 'forall |j: int| 0 <= j < it.index@ ==> ctx.0@.contains_key((#[trigger] component_evaluators@[j]).0)'),
+                ('built_so_far', 'evaluated_ctx.0@ =~= comp_fold(ctx.0@, component_evaluators@, *evaluators, it.index@ as int)')],
+                'body_prefix': PRE + '\nproof { assert(*component_name == component_evaluators@[it.index@ as int].0 && *component_evaluator == component_evaluators@[it.index@ as int].1); }'}},
+            'splices': [{'id': 'witness', 'op': 'before', 'anchor': 'check_allowed_values(Value::Context(evaluated_ctx), av_evaluator.as_ref())',
+                         'text': 'let ghost out = Value::Context(evaluated_ctx);\nproof { assert(comp_result(*value, component_evaluators@, *evaluators, out)); }'}]}
+
+def coll_component_part():
+    return {'kind': 'closure', 'src': ID, 'path': 'fn build_collection_of_component_type_evaluator', 'key': 'itemdef::collection_of_component', 'name': 'collection_of_component',
+            'closure_header': r'Ok\(Box::new\(move \|value: &Value, evaluators: &ItemDefinitionEvaluator\| \{',
+            'signature': 'pub fn collection_of_component(value: &Value, evaluators: &ItemDefinitionEvaluator, component_evaluators: &Vec<(Name, ItemDefinitionEvaluatorFn)>, av_evaluator: Option<Evaluator>) -> Value',
+            'props': P, 'auto_props': A, 'loops': 2, 'ret': 'r', 'body_prefix': PRE,
+            'rewrites': [R3, ('RX', 'R11', r'FeelContext::default\(\)', 'feel_context_default()', 1), ('RX', 'R11', r'Values::default\(\)', 'values_default()', 1),
+                         ('RX', 'R2v', r'for \(component_name, component_evaluator\) in &component_evaluators \{', 'for (component_name, component_evaluator) in component_evaluators.iter() {', 1),
+                         ('RX', 'R8e', r'component_evaluator\(component_value, evaluators\)', 'component_evaluator.call(component_value, evaluators)', 1)],
+            'ensures': [('each_element_checked_component_by_component',
+                         '(value is List && forall |i: int| 0 <= i < value->List_0.0@.len() ==> is_comp_value(#[trigger] value->List_0.0@[i], component_evaluators@)) ==> '
+                         'exists |out: Value| #[trigger] coll_comp_result(*value, component_evaluators@, *evaluators, out) && checked(out, av_evaluator, r)'),
+                        ('otherwise_null', '!(value is List && forall |i: int| 0 <= i < value->List_0.0@.len() ==> is_comp_value(#[trigger] value->List_0.0@[i], component_evaluators@)) ==> r is Null')],
+            'loop_specs': {0: {'iter_name': 'it', 'invariant': [
+                ('ctx', '*value is List, value->List_0 == *values'),
+                ('seq', 'it.seq() =~= values.0@.map_values(|v: Value| &v)'),
+                ('elements_so_far', 'evaluated_values.0@.len() == it.index@ && forall |j: int| 0 <= j < it.index@ ==> is_comp_value(#[trigger] values.0@[j], component_evaluators@) '
+                                    '&& comp_result(values.0@[j], component_evaluators@, *evaluators, evaluated_values.0@[j])')],
+                'body_prefix': PRE + '\nproof { assert(*item_value == values.0@[it.index@ as int]); }'},
+                           1: {'iter_name': 'itc', 'invariant': [
+                ('ctx', '*item_value is Context, item_value->Context_0 == *ctx'),
+                ('outer', '*value is List, value->List_0 == *values, 0 <= it.index@ < values.0@.len(), *item_value == values.0@[it.index@ as int]'),
+                ('seq', 'itc.seq() =~= component_evaluators@.map_values(|c: (Name, ItemDefinitionEvaluatorFn)| &c)'),
+                ('present_so_far', 'forall |j: int| 0 <= j < itc.index@ ==> ctx.0@.contains_key((#[trigger] component_evaluators@[j]).0)'),
+                ('built_so_far', 'evaluated_ctx.0@ =~= comp_fold(ctx.0@, component_evaluators@, *evaluators, itc.index@ as int)')],
+                'body_prefix': PRE + '\nproof { assert(*component_name == component_evaluators@[itc.index@ as int].0 && *component_evaluator == component_evaluators@[itc.index@ as int].1); }'}},
+            'splices': [{'id': 'witness', 'op': 'before', 'anchor': 'check_allowed_values(Value::List(evaluated_values), av_evaluator.as_ref())',
+                         'text': 'let ghost out = Value::List(evaluated_values);\nproof { assert(coll_comp_result(*value, component_evaluators@, *evaluators, out)); }'}]}
+
+def referenced_part():
+    return {'kind': 'closure', 'src': ID, 'path': 'fn build_referenced_type_evaluator', 'key': 'itemdef::referenced', 'name': 'referenced',
+            'closure_header': r'Ok\(Box::new\(move \|value: &Value, evaluators: &ItemDefinitionEvaluator\| \{',
+            'signature': 'pub fn referenced(value: &Value, evaluators: &ItemDefinitionEvaluator, ref_type: String) -> Value',
+            'props': P, 'auto_props': A, 'loops': 0, 'ret': 'r',
+            'rewrites': [('RX', 'R11', r'evaluators\.eval\(&ref_type, value\)\.unwrap_or_else\(\|\| value_null!\("no evaluator"\)\)', 'match evaluators.eval(&ref_type, value) { Some(v_) => v_, None => value_null!() }', 1)],
+            'ensures': [('the_referenced_definition_decides', 'registry_get(*evaluators, ref_type@) is Some ==> r == idef_eval(registry_get(*evaluators, ref_type@)->Some_0, *value, *evaluators)'),
+                        ('unknown_reference_becomes_null', 'registry_get(*evaluators, ref_type@) is None ==> r is Null')]}
+
+def coll_referenced_part():
+    return {'kind': 'closure', 'src': ID, 'path': 'fn build_collection_of_referenced_type_evaluator', 'key': 'itemdef::collection_of_referenced', 'name': 'collection_of_referenced',
+            'closure_header': r'Ok\(Box::new\(move \|value: &Value, evaluators: &ItemDefinitionEvaluator\| \{',
+            'signature': 'pub fn collection_of_referenced(value: &Value, evaluators: &ItemDefinitionEvaluator, type_ref: String, av_evaluator: Option<Evaluator>) -> Value',
+            'props': P, 'auto_props': A, 'loops': 1, 'ret': 'r',
+            'rewrites': [R3, ('RX', 'R11', r'Values::default\(\)', 'values_default()', 1), ('RX', 'R8e', r'\bevaluator\(item_value, evaluators\)', 'evaluator.call(item_value, evaluators)', 1)],
+            'ensures': [('each_element_checked_by_the_referenced_definition', '(value is List && registry_get(*evaluators, type_ref@) is Some) ==> '
+                         'exists |out: Value| #[trigger] coll_ref_result(*value, registry_get(*evaluators, type_ref@)->Some_0, *evaluators, out) && checked(out, av_evaluator, r)'),
+                        ('otherwise_null', '!(value is List && registry_get(*evaluators, type_ref@) is Some) ==> r is Null')],
+            'loop_specs': {0: {'iter_name': 'it', 'invariant': [
+                ('ctx', '*value is List, value->List_0 == *values, *evaluator == registry_get(*evaluators, type_ref@)->Some_0'),
+                ('seq', 'it.seq() =~= values.0@.map_values(|v: Value| &v)'),
+                ('elements_so_far', 'evaluated_values.0@.len() == it.index@ && forall |j: int| 0 <= j < it.index@ ==> (#[trigger] evaluated_values.0@[j]) == idef_eval(*evaluator, values.0@[j], *evaluators)')],
+                'body_prefix': 'proof { assert(*item_value == values.0@[it.index@ as int]); }'}},
+            'splices': [{'id': 'witness', 'op': 'before', 'anchor': 'check_allowed_values(Value::List(evaluated_values), av_evaluator.as_ref())',
+                         'text': 'let ghost out = Value::List(evaluated_values);\nproof { assert(coll_ref_result(*value, *evaluator, *evaluators, out)); }'}]}
+
+UNIT['parts'] += [
+    {'kind': 'fn', 'src': X, 'path': 'impl FeelContext::fn set_entry', 'key': 'itemdef::FeelContext::set_entry', 'props': P, 'auto_props': A, 'loops': 0, 'body_prefix': PRE,
+     'ensures': [('post', 'final(self).0@ == old(self).0@.insert(*name, value)')]},
+    {'kind': 'text', 'note': 'spec', 'text': """pub open spec fn coll_comp_result(v: Value, comps: Seq<(Name, ItemDefinitionEvaluatorFn)>, reg: ItemDefinitionEvaluator, out: Value) -> bool {
+  out is List && out->List_0.0@.len() == v->List_0.0@.len() && forall |j: int| 0 <= j < v->List_0.0@.len() ==> comp_result(v->List_0.0@[j], comps, reg, #[trigger] out->List_0.0@[j])
+}
+pub open spec fn coll_ref_result(v: Value, f: ItemDefinitionEvaluatorFn, reg: ItemDefinitionEvaluator, out: Value) -> bool {
+  out is List && out->List_0.0@.len() == v->List_0.0@.len() && forall |j: int| 0 <= j < v->List_0.0@.len() ==> (#[trigger] out->List_0.0@[j]) == idef_eval(f, v->List_0.0@[j], reg)
+}"""},
+    component_part(), coll_component_part(), referenced_part(), coll_referenced_part(),
+]
+
 NOT_DECIDED = {
     'C11': ['the dispatch from a declared type to its closure (match on FeelType / typeRef literal returning boxed closures): each closure is tied to the nested builder name / typeRef literal it is defined under, the match arms are not under contract',
-            'component, referenced, collection-of-referenced and collection-of-component item definitions (recursion through the registry of dyn closures) - not yet under contract',
-            'output side: where FeelType::coerced is applied to decision / BKM / decision service results (see C16 for coerced itself)',
+            'component / referenced / collection-of variants are decided per closure relative to A-item (the answer of the nested definition\'s evaluator is an uninterpreted function): the recursion through the registry of dyn closures is not unfolded',
+            'output side: where FeelType::coerced is applied to decision / BKM / decision service results (coerced itself: unit types)',
             'allowed-values unary tests themselves (opaque evaluator)'],
     'C12': ['item_definition_type: every combination of typeRef / components / isCollection is classified or reported as an error, never a panic'],
 }
